@@ -11,7 +11,7 @@ from .c17 import gen_string, needs_care
 RULE = ("generated projects (flat or with 2 namespaces, 1-3 locales, 1-8 keys, nested subkeys) whose translation strings are "
         "built from a pool of awkward characters (quotes, backslash, slash, < > & ', all C0 controls, U+007F, C1 controls, "
         "U+00A0, U+200B, U+2028, U+2029, U+FEFF, astral and boundary scalars, combining marks), awkward fragments "
-        "(</script>, <!--, ]]>, \\u0041-looking text) and ordinary words; every written file is one evaluation; "
+        "(</script>, <!--, ]]>, \\u0041-looking text) and ordinary words; non-default locales / namespaces whose table is empty (file `{}`, all null, only variables); every written file is one evaluation; "
         "non-trivial = the file's table holds a string needing escaping or non-ASCII; distinct = distinct string tables")
 
 LOCALES = ["en", "fr", "pt-BR"]
@@ -37,6 +37,17 @@ def gen_project(rng, n, corpus=False):
     for unit in (ns or [None]):
         for l in locales:
             obj = {}
+            # a locale / namespace without a single string of its own (file `{}`, every key null, or only variables): its table is empty
+            empty = None if (corpus or l == "en") else rng.pick([None, None, None, "absent", "null", "vars"])
+            if empty is not None:
+                for k in keys:
+                    if empty == "null":
+                        obj[k] = None
+                    elif empty == "vars" and k not in subkeys:
+                        obj[k] = "{{ v }}"
+                path = "locales/%s/%s.json" % (l, unit) if unit else "locales/%s.json" % l
+                files[path] = json.dumps(obj)
+                continue
             for ki, k in enumerate(keys):
                 if corpus:
                     obj[k] = CORPUS_STRINGS[ki] if l == "en" else CORPUS_STRINGS[ki] + l
